@@ -64,6 +64,14 @@ type Store interface {
 	DeleteTopic(ctx context.Context, name string) error
 }
 
+// ConsumerOffsetLookup is implemented by stores that can tell a partition that
+// was never committed apart from one whose committed offset is 0.
+// FetchConsumerOffset keeps answering 0 for both.
+type ConsumerOffsetLookup interface {
+	// LookupConsumerOffset returns the committed offset and metadata and whether a commit exists.
+	LookupConsumerOffset(ctx context.Context, group, topic string, partition int32) (offset int64, metadata string, found bool, err error)
+}
+
 // TopicSpec describes a topic creation request.
 type TopicSpec struct {
 	Name              string
@@ -526,6 +534,20 @@ func (s *InMemoryStore) FetchConsumerOffset(ctx context.Context, group, topic st
 	defer s.mu.RUnlock()
 	key := consumerKey(group, topic, partition)
 	return s.consumerOffsets[key], s.consumerMeta[key], nil
+}
+
+// LookupConsumerOffset implements ConsumerOffsetLookup.
+func (s *InMemoryStore) LookupConsumerOffset(ctx context.Context, group, topic string, partition int32) (int64, string, bool, error) {
+	select {
+	case <-ctx.Done():
+		return 0, "", false, ctx.Err()
+	default:
+	}
+	s.mu.RLock()
+	defer s.mu.RUnlock()
+	key := consumerKey(group, topic, partition)
+	offset, found := s.consumerOffsets[key]
+	return offset, s.consumerMeta[key], found, nil
 }
 
 // ListConsumerOffsets implements Store.ListConsumerOffsets.
